@@ -6,7 +6,7 @@ PLACES = ["dirtyhole", "grown"]
 
 
 def opts(tier):
-    return dict(vias=("h", "v", "n"), vals=2, compounds=True, grow=True, deep_leaves=4 if tier == "quick" else 8)
+    return dict(vias=("h", "v", "n"), vals=2, compounds=True, grow=True, deep_leaves=4 if tier == "quick" else 8, index_kinds=("h-i8", "h-u8", "h-i16"))
 
 
 def describe(tier):
